@@ -1362,6 +1362,8 @@ class Interp:
                 yield self.arith(op, a, b, s3), s3
 
     def arith(self, op, a, b, st):
+        if isinstance(a, IterSpec) and isinstance(b, IterSpec) and op == "+":
+            return self.chain_iter(a, b)
         if not isinstance(a, SV) and not isinstance(b, SV):
             if isinstance(a, (int, float, str, tuple, list)) and isinstance(b, (int, float, str, tuple, list)):
                 try:
@@ -1369,6 +1371,22 @@ class Interp:
                             "//": lambda: a // b, "%": lambda: a % b, "**": lambda: a ** b}[op]()
                 except Exception:
                     pass
+        one = None
+        if op == "*" and isinstance(b, SV) and b.kind.tag == "int":
+            if isinstance(a, list) and len(a) == 1:
+                one = self.tup_to_sv(a[0])
+            elif isinstance(a, SV) and a.kind.tag == "list" and z3.is_int_value(z3.simplify(a.tree[0])) \
+                    and z3.simplify(a.tree[0]).as_long() == 1:
+                one = SV(a.kind.args[0], tmap(lambda arr: z3.simplify(z3.Select(arr, z3.IntVal(0))), a.tree[1]))
+        if one is not None:
+            # [x] * n : n copies of x (empty for n <= 0)
+            item = one
+            k = LIST(item.kind)
+            res = tfresh(k, "rep")
+            i = z3.Int(core.fresh_name("i"))
+            self.define([res[0] == z3.If(b.tree > 0, b.tree, 0),
+                         z3.ForAll([i], z3.Implies(z3.And(0 <= i, i < res[0]), teq(tselect(res[1], i), item.tree)))])
+            return SV(k, res)
         if isinstance(a, tuple) and isinstance(b, tuple) and op == "+":
             return a + b
         if isinstance(a, tuple) and isinstance(b, SV) and b.kind.tag == "tuple" and op == "+":
@@ -1425,6 +1443,23 @@ class Interp:
         if ka.tag == "tuple" and kb.tag == "tuple" and op == "+":
             return SV(TUP(*(ka.args + kb.args)), tuple(a.tree) + tuple(b.tree))
         raise Unsupported("operator %s on %r / %r" % (op, ka, kb))
+
+    def chain_iter(self, a, b):
+        """list(xs) + list(ys) of two unordered snapshots: an arbitrary-order enumeration of their union.
+        (Elements occurring in both would be visited twice in Python; the model visits them once -- callers are
+        the in-arc / out-arc scans of loop-free graphs, where the two are disjoint.)"""
+        if a.mode == "concrete" and not a.items:
+            return b
+        if b.mode == "concrete" and not b.items:
+            return a
+        if a.mode != "set" or b.mode != "set" or a.ekind != b.ekind:
+            raise Unsupported("concatenation of iterables of different shape")
+        self.assumptions_used.add("A-chain: list(xs)+list(ys) over two unordered views is iterated as their union")
+        u = self.set_op("|", SV(SET(a.ekind), a.mem), SV(SET(a.ekind), b.mem))
+        spec = IterSpec("set", mem=u.tree, ekind=a.ekind, elem=a.elem, identity=getattr(a, "identity", False))
+        if getattr(a, "mark", None):
+            spec.mark = a.mark
+        return spec
 
     def lit_container(self, c, other):
         if isinstance(other, SV) and other.kind.tag in MUTABLE_TAGS and not c:
